@@ -1,6 +1,8 @@
 package main
 
 import (
+	"regexp"
+	"encoding/json"
 	"fmt"
 	"net/textproto"
 	"go/constant"
@@ -846,4 +848,135 @@ func (e *Engine) ghostNames() []string {
 		e.ghosts = []string{}
 	}
 	return e.ghosts
+}
+
+// ---------------------------------------------------------------------------
+// Locals named by contracts. On -regen-expected the (function, name, type) of every local variable a contract
+// clause resolved is recorded in spec/expected/locals.json; when a later tree no longer has a local of that name,
+// renamedLocal proposes the unique local of the recorded type that the contract does not name.
+
+var localUses sync.Map // "fn|name" -> type string (this run)
+
+// localKind: how a local variable appears in SSA — "phi" (assigned on more than one path: loop-carried or merged),
+// "cell" (addressable: an Alloc), "val" (single assignment, known through a debug reference).
+func localKind(fn *ssa.Function, name string) string {
+	kind := ""
+	for _, b := range fn.Blocks {
+		for _, in := range b.Instrs {
+			switch x := in.(type) {
+			case *ssa.Phi:
+				if x.Comment == name {
+					return "phi"
+				}
+			case *ssa.Alloc:
+				if x.Comment == name && kind == "" {
+					kind = "cell"
+				}
+			case *ssa.DebugRef:
+				if id, ok := x.Expr.(*ast.Ident); ok && !x.IsAddr && id.Name == name && isLocalVar(x) && kind == "" {
+					kind = "val"
+				}
+			}
+		}
+	}
+	return kind
+}
+
+func (e *Engine) noteLocalUse(fn *ssa.Function, name string, t types.Type) {
+	if t == nil || fn == nil {
+		return
+	}
+	for _, p := range fn.Params {
+		if p.Name() == name {
+			return
+		}
+	}
+	for _, p := range fn.FreeVars {
+		if p.Name() == name {
+			return
+		}
+	}
+	localUses.Store(shortFn(fn)+"|"+name, localKind(fn, name)+" "+types.TypeString(t, nil))
+}
+
+func localsFile() string { return filepath.Join(verifDir(), "spec", "expected", "locals.json") }
+
+var recordedLocals map[string]string
+var recordedLocalsOnce sync.Once
+
+func (e *Engine) renamedLocal(fn *ssa.Function, con *Contract, name string) string {
+	recordedLocalsOnce.Do(func() {
+		recordedLocals = map[string]string{}
+		if b, err := os.ReadFile(localsFile()); err == nil {
+			json.Unmarshal(b, &recordedLocals)
+		}
+	})
+	want, ok := recordedLocals[shortFn(fn)+"|"+name]
+	if !ok || con == nil {
+		return ""
+	}
+	// local variables of this function, by name, with their types
+	cands := map[string]string{}
+	add := func(n string, t types.Type) {
+		if n != "" && t != nil {
+			cands[n] = localKind(fn, n) + " " + types.TypeString(t, nil)
+		}
+	}
+	for _, b := range fn.Blocks {
+		for _, in := range b.Instrs {
+			switch x := in.(type) {
+			case *ssa.Phi:
+				add(x.Comment, x.Type())
+			case *ssa.Alloc:
+				add(x.Comment, x.Type().Underlying().(*types.Pointer).Elem())
+			case *ssa.DebugRef:
+				if id, ok := x.Expr.(*ast.Ident); ok && !x.IsAddr && isLocalVar(x) {
+					add(id.Name, x.X.Type())
+				}
+			}
+		}
+	}
+	text := con.Sig
+	for _, cl := range con.Clauses {
+		text += "\n" + cl.Text
+	}
+	var hit []string
+	for n, t := range cands {
+		if t != want || n == name {
+			continue
+		}
+		if _, rec := recordedLocals[shortFn(fn)+"|"+n]; rec {
+			continue // another variable the contract already names
+		}
+		if regexp.MustCompile(`(^|[^A-Za-z0-9_$])` + regexp.QuoteMeta(n) + `([^A-Za-z0-9_]|$)`).MatchString(text) {
+			continue
+		}
+		isParam := false
+		for _, p := range fn.Params {
+			if p.Name() == n {
+				isParam = true
+			}
+		}
+		if !isParam {
+			hit = append(hit, n)
+		}
+	}
+	if len(hit) == 1 {
+		return hit[0]
+	}
+	return ""
+}
+
+// writeLocals merges this run's local uses into spec/expected/locals.json (called on -regen-expected).
+func writeLocals() {
+	cur := map[string]string{}
+	if b, err := os.ReadFile(localsFile()); err == nil {
+		json.Unmarshal(b, &cur)
+	}
+	localUses.Range(func(k, v interface{}) bool {
+		cur[k.(string)] = v.(string)
+		return true
+	})
+	b, _ := json.MarshalIndent(cur, "", " ")
+	os.WriteFile(localsFile(), b, 0o644)
 }
